@@ -378,7 +378,7 @@ func buildRsp(q mem.AccessReq, d []int) mem.AccessRsp {
 
 func (w *world) isComp(g int) bool { _, ok := w.comps[g]; return ok }
 
-func (w *world) l1Req(c, s int, p *Payload) bool {
+func (w *world) l1Req(c, s int, p *Payload, ord ...int) bool {
 	if !w.isComp(c) {
 		return false
 	}
@@ -390,10 +390,13 @@ func (w *world) l1Req(c, s int, p *Payload) bool {
 	w.nRoot++
 	w.inFl++
 	w.root[req.Meta().ID] = w.nRoot
+	if len(ord) > 0 && ord[0] > 0 { // the scenario names its roots itself (steps may have been reordered)
+		w.root[req.Meta().ID] = ord[0]
+	}
 	return true
 }
 
-func (w *world) extReq(g, c int, p *Payload) bool {
+func (w *world) extReq(g, c int, p *Payload, ord ...int) bool {
 	if !w.isComp(c) || w.isComp(g) {
 		return false
 	}
@@ -405,6 +408,9 @@ func (w *world) extReq(g, c int, p *Payload) bool {
 	w.nRoot++
 	w.inFl++
 	w.root[req.Meta().ID] = w.nRoot
+	if len(ord) > 0 && ord[0] > 0 { // the scenario names its roots itself (steps may have been reordered)
+		w.root[req.Meta().ID] = ord[0]
+	}
 	return true
 }
 
@@ -544,7 +550,8 @@ func (w *world) ctrl(c int, k string) bool {
 	src := sim.RemotePort(fmt.Sprintf("CP_%d_0", c))
 	var m sim.Msg
 	switch {
-	case k == "drain" && w.phase[c] == "run":
+	case k == "drain" && (w.phase[c] == "run" || w.phase[c] == "restarting"):
+		// the next drain may follow the restart at once, before the RestartRsp was taken out of the control port
 		m = rdma.DrainReqBuilder{}.WithSrc(src).WithDst(port.AsRemote()).Build()
 	case k == "restart" && w.phase[c] == "drained":
 		m = rdma.RestartReqBuilder{}.WithSrc(src).WithDst(port.AsRemote()).Build()
@@ -554,9 +561,12 @@ func (w *world) ctrl(c int, k string) bool {
 	if port.Deliver(m) != nil {
 		return false
 	}
-	if k == "drain" {
+	switch {
+	case k == "drain" && w.phase[c] == "restarting":
+		w.phase[c] = "restarting_d"
+	case k == "drain":
 		w.phase[c] = "draining"
-	} else {
+	default:
 		w.phase[c] = "restarting"
 	}
 	return true
@@ -574,7 +584,11 @@ func (w *world) ctrlTake(c int) bool {
 	case *rdma.DrainRsp:
 		w.phase[c] = "drained"
 	case *rdma.RestartRsp:
-		w.phase[c] = "run"
+		if w.phase[c] == "restarting_d" {
+			w.phase[c] = "draining"
+		} else {
+			w.phase[c] = "run"
+		}
 	}
 	return true
 }
@@ -588,16 +602,16 @@ func (w *world) step(s Step) {
 	}
 	switch s.A {
 	case "L1Req":
-		ok = w.l1Req(s.C, s.S, s.P)
+		ok = w.l1Req(s.C, s.S, s.P, s.Root)
 		if !ok {
 			w.tick(2)
-			ok = w.l1Req(s.C, s.S, s.P)
+			ok = w.l1Req(s.C, s.S, s.P, s.Root)
 		}
 	case "ExtReq":
-		ok = w.extReq(s.G, s.C, s.P)
+		ok = w.extReq(s.G, s.C, s.P, s.Root)
 		if !ok {
 			w.tick(2)
-			ok = w.extReq(s.G, s.C, s.P)
+			ok = w.extReq(s.G, s.C, s.P, s.Root)
 		}
 	case "NetTakeReq":
 		w.await(awaitMax, has("rqo"))
@@ -643,6 +657,10 @@ func (w *world) step(s Step) {
 	} else {
 		w.stats["steps_skipped"]++
 		w.stats["skip_"+s.A]++
+		if os.Getenv("C18_DEBUG") != "" {
+			js, _ := json.Marshal(s)
+			fmt.Fprintf(os.Stderr, "skipped at cycle %d: %s\n", w.cyc, js)
+		}
 	}
 }
 
@@ -736,7 +754,8 @@ func (w *world) random(rng *rand.Rand, n, drains int) {
 		}
 	}
 	issued := 0
-	lazy := rng.Intn(3) // 0: eager movers, 2: lots of back-pressure
+	lazy := rng.Intn(3)    // 0: eager movers, 2: lots of back-pressure
+	stall := map[int]int{} // engine -> steps during which its control responses are not taken
 	for steps := 0; steps < 60*n+300 && !w.dead && (issued < n || w.inFl > 0); steps++ {
 		c := comps[rng.Intn(len(comps))]
 		switch rng.Intn(16) {
@@ -781,12 +800,24 @@ func (w *world) random(rng *rand.Rand, n, drains int) {
 				w.l2Rsp(w.root[w.l2owed[rng.Intn(len(w.l2owed))].Meta().ID], randData(rng))
 			}
 		case 13:
-			if drains > 0 && rng.Intn(6) == 0 && w.ctrl(c, "drain") {
+			if drains > 0 && rng.Intn(6) == 0 && w.phase[c] == "run" && w.ctrl(c, "drain") {
 				drains--
-			} else if rng.Intn(3) == 0 {
-				w.ctrl(c, "restart")
+			} else if rng.Intn(3) == 0 && w.ctrl(c, "restart") && rng.Intn(2) == 0 {
+				// drain again at once and leave the RestartRsp in the control port for a while: the acknowledgement
+				// of the new drain has to wait for room while requests of other GPUs keep arriving
+				w.tick(1 + rng.Intn(2))
+				if w.ctrl(c, "drain") {
+					stall[c] = 8 + rng.Intn(40)
+				}
 			}
 		case 14:
+			if stall[c] > 0 {
+				// meanwhile something from outside, if there is anything to deliver or a peer to send it
+				if len(exts) > 0 && issued < n+4 && w.extReq(exts[rng.Intn(len(exts))], c, randPayload(rng, w.cfg, c)) {
+					issued++
+				}
+				break
+			}
 			w.ctrlTake(c)
 		case 15:
 			if lazy == 0 {
@@ -794,6 +825,11 @@ func (w *world) random(rng *rand.Rand, n, drains int) {
 					for w.netTakeReq(c) || w.netTakeRsp(c) || w.l2Take(c) || w.l1Take(c) {
 					}
 				}
+			}
+		}
+		for g := range stall {
+			if stall[g] > 0 {
+				stall[g]--
 			}
 		}
 		if rng.Intn(3+lazy) < 2 {
@@ -1155,8 +1191,11 @@ func randConfig(rng *rand.Rand) Config {
 	}
 	cfg := Config{Comps: comps, NGpu: ngpu, Span: []uint64{64, 4096, 1 << 20}[rng.Intn(3)],
 		Il: []uint64{16, 64}[rng.Intn(2)], Nb: 1 + rng.Intn(4), Buf: 1 + rng.Intn(4)}
-	if rng.Intn(4) == 0 {
+	switch rng.Intn(8) {
+	case 0, 1:
 		cfg.Buf = 128
+	case 2, 3:
+		cfg.Buf = 1 // one-entry ports: every send can be refused, the control port included
 	}
 	for i := range cfg.Widths {
 		cfg.Widths[i] = 1 + rng.Intn(3)
